@@ -174,8 +174,12 @@ def run(ctx, eng):
             adds = [e for e in p.events if e.kind == 'call' and
                     cm.ev_callee_names(e) & {'add'} and e.args and
                     e.args[0] == T.C('END_STREAM')]
+            # (set on the first frame itself, before or after the build: it
+            # is the frame handed to the builder, checked above)
+            own = [e for e in p.events if e.kind == 'flag' and
+                   e.obj == news[0].obj and e.flag == T.C('END_STREAM')]
             if cls == 'HeadersFrame':
-                if bool(es) != bool(adds):
+                if bool(es) != bool(adds or own):
                     bad.append('END_STREAM flag does not follow end_stream')
                 for a in adds:
                     r = a.recv
